@@ -143,7 +143,8 @@ def to_serializable_errs(
         ``Serializable`` needs to be done outside of this function.
 
     """
-    next_level = next_level or to_serializable_errs
+    if next_level is None:
+        next_level = to_serializable_errs
     err = invalid.err_type
     vldtr = invalid.validator
     if isinstance(err, CoercionErr):
